@@ -90,6 +90,8 @@ def build_op(spec, shape, cplx):
         return linop.Identity(shape, input_dtype=dt)
     if k == "Diagonal":
         return linop.Diagonal(snp.array(to_np(spec["d"], shape, cplx)), input_dtype=dt)
+    if k == "ScaledIdentity":
+        return linop.ScaledIdentity(spec["c"], shape, input_dtype=dt)
     if k == "MatrixOperator":
         M = to_np(spec["M"], tuple(spec["mshape"]), cplx)
         return linop.MatrixOperator(snp.array(M))
@@ -104,6 +106,51 @@ def build_op(spec, shape, cplx):
         S = linop.Sum(input_shape=shape, axis=0, input_dtype=dt)
         return S @ Cc
     raise Broken("unknown operator kind " + k)
+
+
+HIST_OPS = ["mul", "rmul", "div", "set_scale"]
+HIST_USES = ["hessian", "prox", "admm"]
+
+
+def make_loss(fs, y, A, W, shape, cplx):
+    """The SquaredL2Loss of a case.  Fresh-object stream: constructed with scale=.  History
+    stream (fs["history"] = {"op", "c", "use"}): a loss f0 whose hessian / prox has already been
+    USED (directly, or through an ADMM x-update with LinearSubproblemSolver) is re-scaled by
+    c * f0, f0 * c, f0 / c or f0.set_scale(.) so that the documented scale of the resulting loss
+    is fs["scale"] (all factors dyadic: exact); the sub-problem solvers then run on that loss."""
+    import scico.numpy as snp
+    from scico import functional, linop, loss
+    from scico.optimize import ADMM
+    from scico.optimize.admm import LinearSubproblemSolver
+    h = fs.get("history")
+    if not h:
+        return loss.SquaredL2Loss(y=y, A=A, scale=fs["scale"], W=W)
+    c, op = h["c"], h["op"]
+    s0 = {"mul": fs["scale"] / c, "rmul": fs["scale"] / c, "div": fs["scale"] * c,
+          "set_scale": fs["scale"] * c}[op]
+    f0 = loss.SquaredL2Loss(y=y, A=A, scale=s0, W=W)
+    v = snp.array(to_np(h["v"], shape, cplx))
+    if h["use"] == "hessian":
+        f0.hessian(v)
+    elif h["use"] == "prox":
+        f0.prox(v, 0.5)
+    else:
+        a0 = ADMM(f=f0, g_list=[functional.L1Norm()], C_list=[linop.Identity(shape, input_dtype=np_dtype(cplx))],
+                  rho_list=[1.0], x0=v, maxiter=1, itstat_options={"display": False},
+                  subproblem_solver=LinearSubproblemSolver(cg_kwargs={"tol": 1e-4, "maxiter": 5}))
+        a0.subproblem_solver.solve(a0.x)
+    if op == "mul":
+        f = f0 * c
+    elif op == "rmul":
+        f = c * f0
+    elif op == "div":
+        f = f0 / c
+    else:
+        f0.set_scale(fs["scale"])
+        f = f0
+    if float(f.scale) != float(fs["scale"]):
+        raise Broken("history stream: derived loss does not have the intended scale", f"{f.scale} vs {fs['scale']}")
+    return f
 
 
 def build_problem(case):
@@ -122,7 +169,7 @@ def build_problem(case):
         W = None
         if fs["W"] is not None:
             W = linop.Diagonal(snp.array(np.array(fs["W"], dtype=np.float64).reshape(yshape)))
-        f = loss.SquaredL2Loss(y=y, A=A, scale=fs["scale"], W=W)
+        f = make_loss(fs, y, A, W, shape, cplx)
     elif case.get("fzero"):
         f = functional.ZeroFunctional()
     C_list, g_list, rho_list, z_list, u_list = [], [], [], [], []
@@ -343,39 +390,70 @@ def shift_invariant_block(rng, shape, ndims, cplx, lead=None):
     return conv_spec(rng, shape, ndims, cplx)
 
 
+def add_history(rng, case, i):
+    """mark the loss of the case as 'derived by re-scaling an already used loss'"""
+    case["f"]["history"] = {"op": HIST_OPS[i % len(HIST_OPS)] if i < 8 else rng.choice(HIST_OPS),
+                            "c": rng.choice([0.25, 0.5, 2.0, 4.0]),
+                            "use": rng.choice(HIST_USES),
+                            "v": rand_arr(rng, tuple(case["shape"]), case["complex"])}
+
+
 def gen_matrix(rng, i=0):
-    """stratified over i: 0,1 Woodbury (wide A, diagonal blocks); 2 tall A, diagonal blocks;
-    3 matrix-only blocks; 4 mixed blocks; 5 wide A with a zero weight; 6 f.A Diagonal; 7 random;
-    every 12th: f = None"""
+    """stratified over i % 8 (shape lattice wide / SQUARE / tall):
+    0 Woodbury (wide A, diagonal blocks, weighted); 1 SQUARE A, diagonal blocks, real, weighted;
+    2 strictly tall A, diagonal blocks; 3 matrix-only blocks; 4 mixed blocks; 5 wide A with a zero
+    weight; 6 f.A Diagonal; 7 SQUARE A, diagonal blocks, complex, unweighted (every other round:
+    fully random incl. square); every 12th: f = None.  Diagonal blocks are Identity, Diagonal or
+    ScaledIdentity.  Strata 2, 3 alternate with the history stream (re-scaled used losses)."""
+    k = i % 8
+    rnd7 = k == 7 and (i // 8) % 2 == 1
     cplx = rng.random() < 0.4
+    if k == 1 and i < 8:
+        cplx = False
+    if k == 7 and not rnd7:
+        cplx = True
     n = rng.randint(2, 5)
     case = {"family": "matrix", "complex": cplx, "shape": [n], "trunc": rng.randint(1, 2)}
-    k = i % 8
     r = rng.random()
     if i % 12 == 11:
         case["f"] = None
     else:
-        if k == 6 or (k == 7 and r < 0.2):
+        if k == 6 or (rnd7 and r < 0.2):
             A = {"kind": "Diagonal", "d": rand_arr(rng, (n,), cplx, nonzero=True)}
         else:
-            wide = rng.random() < 0.5 if k == 7 else k in (0, 1, 5)
-            m = rng.randint(1, n - 1) if wide else rng.randint(n, n + 3)
+            if rnd7:
+                m = rng.choice([rng.randint(1, n - 1), n, rng.randint(n + 1, n + 3)])
+            elif k in (0, 5):
+                m = rng.randint(1, n - 1)
+            elif k in (1, 7):
+                m = n
+            elif k == 2:
+                m = rng.randint(n + 1, n + 3)
+            else:
+                m = rng.randint(n, n + 3)
             A = {"kind": "MatrixOperator", "M": rand_arr(rng, (m, n), cplx), "mshape": [m, n]}
         wk = rng.choices(["none", "pos", "uniform", "zero"], [0.2, 0.55, 0.1, 0.15])[0]
         if k == 5:
             wk = "zero"
-        elif k == 0:
+        elif k in (0, 1):
             wk = "pos"
+        elif k == 7 and not rnd7:
+            wk = "none"
         case["f"] = {"A": A, "scale": rng.choice(SCALES), "wkind": wk}
+        if k in (2, 3) and (i // 8) % 2 == 0:
+            add_history(rng, case, i)
     mode = rng.choices(["diag", "mat", "mixed"], [0.6, 0.22, 0.18])[0]
-    if k != 7:
+    if not rnd7:
         mode = {3: "mat", 4: "mixed"}.get(k, "diag")
     nb = rng.randint(1, 3)
     blocks = []
     for i in range(nb):
         if mode == "diag" or (mode == "mixed" and i % 2 == 0):
-            if rng.random() < 0.4:
+            rr = rng.random()
+            if rr < 0.3:
                 C = {"kind": "Identity"}
+            elif rr < 0.5:
+                C = {"kind": "ScaledIdentity", "c": rng.choice([0.5, 1.5, 2.0, -1.5])}
             else:
                 C = {"kind": "Diagonal", "d": rand_arr(rng, (n,), cplx, nonzero=True)}
         else:
@@ -403,6 +481,8 @@ def gen_circ(rng, i=0):
         A = {"kind": "Identity"} if rng.random() < 0.3 else conv_spec(rng, shape, nd, cplx)
         wk = ["none", "uniform", "none", "pos"][i % 4]
         case["f"] = {"A": A, "scale": rng.choice(SCALES), "wkind": wk}
+        if i % 5 in (0, 2):
+            add_history(rng, case, i + 1)
     case["blocks"] = [{"C": shift_invariant_block(rng, shape, nd, cplx), "rho": rng.choice(RHOS)}
                       for _ in range(rng.randint(1, 3))]
     return case
@@ -424,6 +504,8 @@ def gen_fblock(rng, i=0):
     case = {"family": "fblock", "complex": cplx, "shape": shape, "ndims": nd}
     wk = ["none", "uniform", "none", "pos"][i % 4]
     case["f"] = {"A": sumconv_spec(rng, shape, nd, cplx), "scale": rng.choice(SCALES), "wkind": wk}
+    if i % 4 in (0, 1):
+        add_history(rng, case, i + 2)
     case["blocks"] = [{"C": shift_invariant_block(rng, shape, nd, cplx, lead=K), "rho": rng.choice(RHOS)}
                       for _ in range(rng.randint(1, 3))]
     return case
